@@ -35,7 +35,7 @@ PIDS = ["p1", "p2", "nobj"]
 
 
 def examples(tier):
-    return 2400 if tier == "quick" else 30000
+    return 2400 if tier == "quick" else 150000
 
 
 def _bad(kind):
